@@ -167,10 +167,7 @@ func c08(args []string) error {
 					}
 					_, isCircle := o.(*geojson.Circle)
 					rec["circle"] = isCircle
-					rec["valid"] = o.Valid()
-					if c, ok := o.(*geojson.Circle); ok { // RequireValid speaks about the nine standard types: a Circle feature is its Point
-						rec["valid"] = c.Center().Valid()
-					}
+					rec["valid"] = validStd(o) // RequireValid speaks about the nine standard types: a Circle feature is its Point, at any depth
 				}
 				recs = append(recs, rec)
 			}
@@ -216,4 +213,22 @@ func nullOrdinate(a AST) bool {
 		}
 	}
 	return false
+}
+
+// validStd: Valid() with every Circle (which stands for a Feature with a Point geometry) replaced by the validity of its centre
+func validStd(o geojson.Object) bool {
+	switch v := o.(type) {
+	case *geojson.Circle:
+		return v.Center().Valid()
+	case *geojson.Feature:
+		return validStd(v.Base())
+	case geojson.Collection:
+		for _, ch := range v.Children() {
+			if !validStd(ch) {
+				return false
+			}
+		}
+		return true
+	}
+	return o.Valid()
 }
